@@ -45,6 +45,7 @@ func main() {
 	modcache := flag.String("modcache", "", "GOMODCACHE (for exports/_mod and -instr of module files)")
 	noStmt := flag.Bool("nostmt", false, "only sync-operation points, no statement-level points")
 	stmtFuncs := flag.String("stmtfuncs", "", "comma-separated function/method names: statement-level points only inside these (default: everywhere)")
+	patched := flag.String("patched", "", "directory mirroring repo-relative paths of files that replace the repository's (mutant runs that leave the repository untouched)")
 	flag.Var(&instr, "instr", "file to instrument (relative to repo, or absolute)")
 	flag.Var(&replaces, "replace", "dst=src raw overlay entry (dst relative to repo or absolute)")
 	flag.Parse()
@@ -90,6 +91,11 @@ func main() {
 			continue
 		}
 		in := src
+		if rel, err := filepath.Rel(*repo, src); *patched != "" && err == nil && !strings.HasPrefix(rel, "..") {
+			if _, err := os.Stat(filepath.Join(*patched, rel)); err == nil {
+				in = filepath.Join(*patched, rel)
+			}
+		}
 		out := filepath.Join(*work, fmt.Sprintf("instr_%02d_%s", i, filepath.Base(src)))
 		data, err := instrument(in, !*noStmt, *stmtFuncs)
 		if err != nil {
@@ -108,6 +114,21 @@ func main() {
 			dst = filepath.Join(*repo, dst)
 		}
 		overlay[dst] = kv[1]
+	}
+	if *patched != "" {
+		must(filepath.Walk(*patched, func(p string, info os.FileInfo, err error) error {
+			if err != nil || info.IsDir() {
+				return err
+			}
+			rel, _ := filepath.Rel(*patched, p)
+			dst := filepath.Join(*repo, rel)
+			if cur, ok := overlay[dst]; !ok || cur == dst {
+				overlay[dst] = p
+			} else if !strings.HasPrefix(filepath.Base(cur), "instr_") {
+				fatal("patched file %s collides with an overlay entry (%s)", rel, cur)
+			}
+			return nil
+		}))
 	}
 	js, _ := json.MarshalIndent(map[string]interface{}{"Replace": overlay}, "", " ")
 	must(ioutil.WriteFile(filepath.Join(*work, "overlay.json"), js, 0o644))
